@@ -39,7 +39,7 @@ impl ROp {
 /// between two reads of the same handle are not expressible in the API, so the generator only
 /// produces `List/Hash/Size/Get/Drop` between handles.
 fn run_impl(bytes: &[u8], cfg: &Cfg, hist: &[ROp]) -> Result<Vec<Value>, String> {
-    let mut r = ArchiveReader::from_config(Cursor::new(bytes), cfg.reader_config()).map_err(|e| err_class(&e))?;
+    let mut r = ArchiveReader::from_config(used_cursor(bytes), cfg.reader_config()).map_err(|e| err_class(&e))?;
     let mut outs = vec![];
     let mut i = 0;
     while i < hist.len() {
